@@ -87,14 +87,15 @@ fn header_ok(e: &[u8]) -> bool {
 }
 
 // ---------------------------------------------------------------- one case
-/// Gallina byte-string literal: printable ASCII as text (half the size of hex,
-/// and the case files are dominated by literal parsing), anything else as hex
+/// Gallina byte-string literal `(b7 len (W 0x.. (W 0x.. WE)))`, 7 bytes per
+/// primitive-integer word (Run/EvalC01.v): about 30 times cheaper for Coq to
+/// read than a string literal, and the case files are mostly byte strings
 fn gb(b: &[u8]) -> String {
-    if !b.is_empty() && b.iter().all(|&c| (32..127).contains(&c)) {
-        format!("(s2b \"{}\")", String::from_utf8_lossy(b).replace('"', "\"\""))
-    } else {
-        g_bytes(b)
+    let mut t = String::from("WE");
+    for ch in b.chunks(7).rev() {
+        t = format!("(W 0x{} {})", hex::encode(ch), t);
     }
+    format!("(b7 {} {})", b.len(), t)
 }
 fn hexf(v: &Value) -> Vec<u8> {
     hex::decode(v.as_str().expect("hex string")).expect("hex")
@@ -178,12 +179,12 @@ pub fn run_input(input: &Value) -> Case {
     let mut der_t = vec![];
     let mut ver_t = vec![];
     if let Some(sig) = sig_candidate(&etags) {
-        der_t.push(g_pair(&g_bytes(&sig), &g_bool(der_ok(&sig))));
+        der_t.push(g_pair(&gb(&sig), &g_bool(der_ok(&sig))));
         let mut seen = vec![];
         for (kid, seed) in &keys {
             if *kid == id && !seen.contains(seed) {
                 seen.push(*seed);
-                ver_t.push(format!("({}, {}, {}, {})", seed, g_bytes(&digest), g_bytes(&sig), g_bool(verifies(*seed, &digest, &sig))));
+                ver_t.push(format!("({}, {}, {}, {})", seed, gb(&digest), gb(&sig), g_bool(verifies(*seed, &digest, &sig))));
             }
         }
     }
@@ -192,7 +193,7 @@ pub fn run_input(input: &Value) -> Case {
     let (impl_g, class) = match obs {
         Ok(Obs::Ok(s)) => {
             out["impl"] = json!({"ok": hex::encode(&s)});
-            (format!("(inr {})", g_bytes(&s)), class)
+            (format!("(inr {})", gb(&s)), class)
         }
         Ok(Obs::Err(i)) => {
             out["impl"] = json!({"err": ERR_NAMES[i as usize]});
@@ -212,13 +213,13 @@ pub fn run_input(input: &Value) -> Case {
         "K01 {} {} {} {} {} {} {} {} {} {} {} {}",
         gb(&req),
         gb(&resp),
-        g_bytes(&nonce),
+        gb(&nonce),
         id,
         g_list(&keys.iter().map(|(i, s)| format!("({}, {})", i, s)).collect::<Vec<_>>()),
         g_list(&etags.iter().map(|e| gb(e)).collect::<Vec<_>>()),
-        g_bytes(&sha_req),
-        g_bytes(&sha_resp),
-        g_list(&[g_pair(&g_bytes(&pre), &g_bytes(&digest))]),
+        gb(&sha_req),
+        gb(&sha_resp),
+        g_list(&[g_pair(&gb(&pre), &gb(&digest))]),
         g_list(&der_t),
         g_list(&ver_t),
         impl_g
@@ -355,7 +356,7 @@ fn mutations(rng: &mut Rng, ex: &Exch, idx: usize, exhaustive: bool, lite: bool,
     }
 
     // -- every / sampled single-bit flip of the ETag bytes
-    let nb = if lite { 16 } else { 64 };
+    let nb = if lite { 16 } else { 128 };
     for bit in positions(rng, e.len() * 8, nb, exhaustive) {
         push(out, ex, &[flip(&e, bit)], "etag-bitflip");
     }
@@ -411,7 +412,7 @@ fn mutations(rng: &mut Rng, ex: &Exch, idx: usize, exhaustive: bool, lite: bool,
     }
 
     // -- truncation
-    for n in positions(rng, e.len(), 24, exhaustive) {
+    for n in positions(rng, e.len(), 48, exhaustive) {
         push(out, ex, &[e[..n].to_vec()], "etag-truncated");
     }
     for n in positions(rng, e.len(), 6, exhaustive) {
@@ -600,13 +601,13 @@ pub fn generate(rng: &mut Rng, n: usize, thorough: bool) -> Vec<Value> {
         }
         let ex = Exch { req, resp, nonce: r.bytes(32), keys, id, signer };
         let lite = ex.req.len() > 256 || ex.resp.len() > 256;
-        // thorough: every bit flip / truncation for one exchange in four
-        let exhaustive = thorough && i % 4 == 0 && !lite;
+        // thorough: every bit flip / truncation for one exchange in ten
+        let exhaustive = thorough && i % 10 == 0 && !lite;
         mutations(&mut r, &ex, i, exhaustive, lite, &mut v);
     }
     v
 }
 
-pub const HEADER: &str = "Require Import Verif.Run.EvalC01.";
+pub const HEADER: &str = "Require Import Verif.Run.EvalC01.\nFrom Coq Require Import PrimInt63.";
 pub const CTYPE: &str = "c01case";
 pub const RUNNER: &str = "run_c01";
